@@ -193,6 +193,17 @@ CHECKS.update({
             "DESIGN.md §3 C15"),
 })
 
+CHECKS.update({
+    "C17": ("exploration",
+            "reference-model oracle: an independent translation of the Sim spec to a plain dict vs a decoder of the returned "
+            "vlsir.spice.SimInput, with a boundary recorder on the real sim.to_proto",
+            "Seeded Sim specs over every attribute type, nesting to depth 3, every Scalar form of every numeric field, the five "
+            "SaveTarget forms, three construction styles, lists sharing / not sharing testbenches, and testbenches violating the "
+            "one-scalar-port interface (incl. bundle ports that only appear after elaboration).",
+            "numeric expectation = nearest double of the exact decimal value; unnamed analyses need distinct names only",
+            "DESIGN.md §3 C17"),
+})
+
 NOT_APPLICABLE = {}
 
 
